@@ -291,9 +291,11 @@ Proof.
     - intros He (A & B & C). congruence. }
   destruct p; [|congruence|].
   - destruct (negb (r_udp_write_ok r)).
-    + do 4 eexists. split; [reflexivity|].
-      assert (E0 : s = mkSrv (v_conns s) (v_sess s) (v_readers s) (v_active s) (v_mcount s) (v_mwriters s) (v_rtp s) (v_rtcp s) (v_next s)) by (destruct s; reflexivity).
-      rewrite E0 at 2. apply Fin; try reflexivity; try discriminate; try tauto; try (cbn; congruence).
+    + (* the medias could not be started: nothing but the writer flag changes *)
+      do 4 eexists. split; [reflexivity|].
+      constructor; [|reflexivity|reflexivity|reflexivity|reflexivity|reflexivity|discriminate|discriminate].
+      apply (Inv_sess_only c s ss); [assumption|assumption|assumption|reflexivity| |reflexivity|cbn; tauto].
+      clear Fin. sess_ok OK.
     + destruct (start_record (s_ip ss) (s_id ss) (s_medias ss) (v_rtp s) (v_rtcp s)) as [a b].
       do 4 eexists. split; [reflexivity|]. apply Fin; try reflexivity; try discriminate; try tauto; try (cbn; congruence).
   - do 4 eexists. split; [reflexivity|].
